@@ -108,6 +108,59 @@ def eval_cases(ck, name, cases):
     return res, out
 
 
+FEP = {"loki_labels": "FLokiLabels", "loki_values": "FLokiValues", "loki_series": "FLokiSeries", "prom_labels": "FPromLabels",
+       "prom_values": "FPromValues", "prom_series": "FPromSeries", "tempo_tags": "FTempoTags", "tempo_values": "FTempoValues",
+       "tempo_tags_v2": "FTempoTagsV2", "tempo_values_v2": "FTempoValuesV2", "tempo_search_tags": "FTempoSearchTags",
+       "tempo_traceql": "FTempoTraceQL"}
+SEL = {"none": "SelNone", "ok": "SelOk", "bad": "SelBad"}
+FHEADER = ("From Coq Require Import List ZArith Bool.\nFrom Qryn Require Import model.Pipeline model.ReadPath model.ReadFwd.\n"
+           "Import ListNotations.\nOpen Scope Z_scope.\n")
+
+
+def frow_to_coq(k):
+    if k == "ok":
+        return "FOk"
+    if k == "bad":
+        return "FBad"
+    _, ns, nd, nt = k.split(":")
+    return "FTrace %s %s %s" % (ns, nd, nt)
+
+
+def is_fwd(c):
+    return bool(c.get("model")) and c["model"].get("ep") == "fwd"
+
+
+def fcase_to_coq(c):
+    m = c["model"]
+    b = lambda x: "true" if x else "false"
+    cx = coq_list(["None" if v is None else "Some %s" % coq_Z(v) for v in (m.get("cx") or [])])
+    req = "mkF %s %s %s %s %s %s %s %s %s %s %s" % (
+        FEP[m["fep"]], coq_param(m["start"]), coq_param(m["end"]), b(m.get("aux_bad")), SEL[m["sel"]],
+        coq_list([frow_to_coq(k) for k in (m.get("rows") or [])]), coq_Z(m["fail_after"]), b(m.get("query_err")), cx,
+        b(m.get("cx_err")), b(m.get("boot_fail")))
+    # the statement count is compared whenever the request ended in a response (also when the client went away:
+    # every statement of these endpoints is issued before the first byte is written)
+    stmts = c["obs"].get("stmts", -1) if c["obs"]["outcome"] == "resp" else -1
+    return "mkFC %d (%s) %d %s" % (c["id"], req, obs_code(c["obs"]), coq_Z(stmts))
+
+
+def eval_fcases(ck, name, cases):
+    """model/ReadFwd.v on the forwarding endpoints: predicted (class, statements) per case, mismatches, spec violations"""
+    txt = (FHEADER + "Definition cases : list fcase := [\n  " + ";\n  ".join(fcase_to_coq(c) for c in cases) + "].\n"
+           "Definition P := Eval vm_compute in map (fun c => let '(o, n) := fpredicted c in o * 1000 + n) cases.\nPrint P.\n"
+           "Definition MV := Eval vm_compute in (fmismatches cases, fspec_violations cases).\nPrint MV.\n")
+    rc, out = ck.coq_eval(name, txt)
+    if rc != 0:
+        return None, out
+    flat = " ".join(out.split())
+    mp = re.search(r"\bP = (\[.*?\]|nil)\s*: list Z", flat)
+    mv = re.search(r"\bMV = \((\[.*?\]|nil), (\[.*?\]|nil)\)", flat)
+    if not mp or not mv:
+        return None, out
+    ints = lambda t: [int(x) for x in re.findall(r"-?\d+", t)]
+    return {"P": ints(mp.group(1)), "M": ints(mv.group(1)), "V": ints(mv.group(2))}, out
+
+
 # ------------------------------------------------------------------------------ harness
 def run_harness(ck, args, tag):
     outp = os.path.join(ck.work, tag + ".jsonl")
@@ -259,7 +312,8 @@ def run(ck):
     skipped = [c for c in cases if c["obs"]["outcome"] == "skipped"]
     cases = [c for c in cases if c["obs"]["outcome"] != "skipped"]
     ck.extra["skipped_for_time"] = len(skipped)
-    modelled = [c for c in cases if c.get("model")]
+    fwd = [c for c in cases if is_fwd(c)]
+    modelled = [c for c in cases if c.get("model") and not is_fwd(c)]
     testonly = [c for c in cases if not c.get("model")]
     known = ck.known_findings()
 
@@ -304,6 +358,35 @@ def run(ck):
                           "model_predicted": CODE_NAME.get(pred[w["id"]]), "case": strip(w), "broken": "correspondence ReadPath.model_outcome vs reader router"},
                          no_input=True)
 
+    # ---- 4b. forwarding endpoints (labels, series, Tempo tags / search, TraceQL), inside Coq: class AND statement count
+    fbyid = {c["id"]: c for c in fwd}
+    fjobs = [(k // 100, fwd[k:k + 100]) for k in range(0, len(fwd), 100)]
+    with ThreadPoolExecutor(max_workers=6) as ex:
+        fres = list(ex.map(lambda j: eval_fcases(ck, "C12_fcases_%d" % j[0], j[1]), fjobs))
+    FM, FV, FP = [], [], []
+    for r, out in fres:
+        if r is None:
+            ck.obligation("forwarding-endpoint cases evaluated inside Coq", False, out[-1500:])
+            return
+        FM += r["M"]; FV += r["V"]; FP += r["P"]
+    fpred = dict(zip([c["id"] for c in fwd], FP))
+    show = lambda i: (i, fbyid[i]["class"], "model %s/%d stmts" % (CODE_NAME.get(fpred[i] // 1000), fpred[i] % 1000),
+                      "observed %s/%s stmts" % (CODE_NAME.get(obs_code(fbyid[i]["obs"])), fbyid[i]["obs"].get("stmts")))
+    ck.obligation("correspondence: fwd_outcome = (observed outcome class, SQL statements issued) on %d requests of the label / series / Tempo tag, search and TraceQL endpoints" % len(fwd),
+                  not FM, "mismatching %s" % [show(i) for i in FM[:6]])
+    ck.obligation("spec oracle: every request of the forwarding endpoints ends in an HTTP response with nothing left behind",
+                  not FV, "violating %s" % [show(i) for i in FV[:6]])
+    if FV:
+        w = min((fbyid[i] for i in FV), key=size_of)
+        ck.violation({"property": "C12", "kind": "request does not end in an orderly HTTP response: " + CODE_NAME[obs_code(w["obs"])],
+                      "model_predicted": CODE_NAME.get(fpred[w["id"]] // 1000), "case": strip(w), "others": len(FV) - 1,
+                      "replay": "bin/check C12 --replay <this file>"})
+    elif FM:
+        w = min((fbyid[i] for i in FM), key=size_of)
+        ck.violation({"property": "C12", "kind": "model and implementation disagree on (outcome class, statements issued); both orderly",
+                      "model_predicted": "%s, %d statements" % (CODE_NAME.get(fpred[w["id"]] // 1000), fpred[w["id"]] % 1000), "case": strip(w),
+                      "others": len(FM) - 1, "broken": "correspondence ReadFwd.fwd_outcome vs reader router"}, no_input=True)
+
     # ---- 5. test-only stream
     bad = []
     for c in testonly:
@@ -344,7 +427,9 @@ def run(ck):
                             "valid, mutated and random query bytes and random result sets. non-trivial = a SQL statement was issued (or the request did not end in a response); distinct by request+script content. ")
     ck.extra["input_distribution"] = hist
     ck.extra["observed_outcomes"] = outc
-    ck.extra["modelled_requests"] = len(modelled)
+    ck.extra["modelled_requests"] = len(modelled) + len(fwd)
+    ck.extra["modelled_forwarding_requests"] = len(fwd)
+    ck.extra["statements_issued_histogram"] = {str(k): sum(1 for c in fwd if c["obs"].get("stmts") == k) for k in sorted({c["obs"].get("stmts", -1) for c in fwd})}
     ck.extra["test_only_requests"] = len(testonly)
     ck.extra["level_note_test"] = "the test-only stream is a test (response + liveness + goroutine census), not covered by a theorem"
     samples = []
